@@ -1,5 +1,7 @@
 pub trait Logger {
     fn log(&self, message: impl Into<String>) {
+        #[cfg(rce_verif)]
+        let message = crate::rce_verif::on_log(message);
         println!("{}", message.into());
     }
 
